@@ -264,6 +264,21 @@ m("C04-benign-prove-let-values", PUB, "        let proof = generate_proof(&self.
 m("C16-temporary-guard-on-raw-option", PMA, "        if temporary.unwrap_or(get_tmp()) && path.is_some() && path.as_ref().unwrap().exists() {", "        if temporary.unwrap_or(false) && path.is_some() && path.as_ref().unwrap().exists() {", "C16")
 m("C16-temporary-guard-dropped", PMA, "        if temporary.unwrap_or(get_tmp()) && path.is_some() && path.as_ref().unwrap().exists() {", "        if false && temporary.unwrap_or(get_tmp()) && path.is_some() && path.as_ref().unwrap().exists() {", "C16")
 
+# ---- behaviour-preserving refactors, fourth batch: renamed locals (the rules must not depend on variable names)
+def rename(name, file, pairs, prop):
+    """a mutant made of several textual replacements in one file (all occurrences)"""
+    M.append((name, file, ("__multi__", pairs), None, prop))
+
+
+rename("C06-benign-rename-update-hashes-locals", OMT, [("        let mut first = index;\n        let mut last = index + length - 1;\n        let mut depth = self.depth;\n        while depth > 0 {\n            first >>= 1;\n            last >>= 1;\n            for parent_index in first..=last {\n                let n_hash = self.hash_couple(depth, parent_index << 1);\n                self.nodes.insert((depth - 1, parent_index), n_hash);\n            }\n            depth -= 1;", "        let mut lo_pos = index;\n        let mut hi_pos = index + length - 1;\n        let mut level = self.depth;\n        while level > 0 {\n            lo_pos >>= 1;\n            hi_pos >>= 1;\n            for parent_index in lo_pos..=hi_pos {\n                let n_hash = self.hash_couple(level, parent_index << 1);\n                self.nodes.insert((level - 1, parent_index), n_hash);\n            }\n            level -= 1;")], "C06")
+rename("C07-benign-rename-proof-locals", OMT, [("        let mut i = index;\n        let mut depth = self.depth;\n        loop {\n            i ^= 1;\n            witness.push((self.get_node(depth, i), (1 - (i & 1)).try_into().unwrap()));\n            i >>= 1;\n            depth -= 1;\n            if depth == 0 {\n                break;\n            }\n        }\n        if i != 0 {", "        let mut pos = index;\n        let mut level = self.depth;\n        loop {\n            pos ^= 1;\n            witness.push((self.get_node(level, pos), (1 - (pos & 1)).try_into().unwrap()));\n            pos >>= 1;\n            level -= 1;\n            if level == 0 {\n                break;\n            }\n        }\n        if pos != 0 {")], "C07")
+rename("C06-benign-rename-subtree-root-locals", FMT, [("            let mut idx = self.capacity() + index - 1;\n            let mut nd = self.depth;\n            loop {\n                let parent = self.parent(idx).unwrap();\n                nd -= 1;\n                if nd == n {\n                    return Ok(self.nodes[parent]);\n                } else {\n                    idx = parent;", "            let mut node = self.capacity() + index - 1;\n            let mut level = self.depth;\n            loop {\n                let parent = self.parent(node).unwrap();\n                level -= 1;\n                if level == n {\n                    return Ok(self.nodes[parent]);\n                } else {\n                    node = parent;")], "C06")
+rename("C15-benign-rename-remove-indices-locals", PMA, [("let mut new_leaves = Vec::new();", "let mut span_values = Vec::new();"), ("                new_leaves.push(PmTreeHasher::default_leaf());", "                span_values.push(PmTreeHasher::default_leaf());"), ("                new_leaves.push(self.tree.get(i)?);", "                span_values.push(self.tree.get(i)?);"), (".set_range(start, new_leaves)", ".set_range(start, span_values)")], "C15")
+rename("C08-benign-rename-remove-indices-locals", PMA, [("let mut new_leaves = Vec::new();", "let mut span_values = Vec::new();"), ("                new_leaves.push(PmTreeHasher::default_leaf());", "                span_values.push(PmTreeHasher::default_leaf());"), ("                new_leaves.push(self.tree.get(i)?);", "                span_values.push(self.tree.get(i)?);"), (".set_range(start, new_leaves)", ".set_range(start, span_values)")], "C08")
+rename("C09-benign-rename-mix-acc", PH, [("            let mut acc = F::ZERO;\n            for j in 0..state.len() {\n                acc += row[j] * state[j];\n            }\n            state_2[i] = acc;", "            let mut sum = F::ZERO;\n            for j in 0..state.len() {\n                sum += row[j] * state[j];\n            }\n            state_2[i] = sum;")], "C09")
+rename("C19-benign-rename-shr-locals", GR, [("    let c = result.as_mut();\n    while n >= 64 {\n        for i in 0..3 {\n            c[i as usize] = c[(i + 1) as usize];\n        }\n        c[3] = 0;", "    let limbs = result.as_mut();\n    while n >= 64 {\n        for i in 0..3 {\n            limbs[i as usize] = limbs[(i + 1) as usize];\n        }\n        limbs[3] = 0;"), ("    let mut carrier: u64 = c[3] & mask;\n    c[3] >>= n;\n    for i in (0..3).rev() {\n        let new_carrier = c[i] & mask;\n        c[i] = (c[i] >> n) | (carrier << (64 - n));\n        carrier = new_carrier;", "    let mut low_bits: u64 = limbs[3] & mask;\n    limbs[3] >>= n;\n    for i in (0..3).rev() {\n        let next_low = limbs[i] & mask;\n        limbs[i] = (limbs[i] >> n) | (low_bits << (64 - n));\n        low_bits = next_low;")], "C19")
+rename("C20-benign-rename-evaluate-locals", GR, [("    let mut values = Vec::with_capacity(nodes.len());\n    for &node in nodes.iter() {\n        let value = match node {\n            Node::Constant(c) => u256_to_fr(&c),\n            Node::MontConstant(c) => c,\n            Node::Input(i) => u256_to_fr(&inputs[i]),\n            Node::Op(op, a, b) => op.eval_fr(values[a], values[b]),\n            Node::UnoOp(op, a) => op.eval_fr(values[a]),\n            Node::TresOp(op, a, b, c) => op.eval_fr(values[a], values[b], values[c]),\n        };\n        values.push(value);\n    }\n\n    // Convert from Montgomery form and return the outputs.\n    let mut out = vec![Fr::from(0); outputs.len()];\n    for i in 0..outputs.len() {\n        out[i] = values[outputs[i]];\n    }\n\n    out\n}", "    let mut computed = Vec::with_capacity(nodes.len());\n    for &node in nodes.iter() {\n        let value = match node {\n            Node::Constant(c) => u256_to_fr(&c),\n            Node::MontConstant(c) => c,\n            Node::Input(i) => u256_to_fr(&inputs[i]),\n            Node::Op(op, a, b) => op.eval_fr(computed[a], computed[b]),\n            Node::UnoOp(op, a) => op.eval_fr(computed[a]),\n            Node::TresOp(op, a, b, c) => op.eval_fr(computed[a], computed[b], computed[c]),\n        };\n        computed.push(value);\n    }\n\n    // Convert from Montgomery form and return the outputs.\n    let mut signals = vec![Fr::from(0); outputs.len()];\n    for i in 0..outputs.len() {\n        signals[i] = computed[outputs[i]];\n    }\n\n    signals\n}")], "C20")
+
 
 def main():
     os.makedirs(OUT, exist_ok=True)
@@ -274,10 +289,19 @@ def main():
             continue
         p = os.path.join(REPO, file)
         s = open(p).read()
-        if s.count(old) < 1:
-            print("PATTERN MISSING", name)
-            continue
-        open(p, "w").write(s.replace(old, new, 1))
+        if isinstance(old, tuple) and old[0] == "__multi__":
+            miss = [a for a, b in old[1] if s.count(a) < 1]
+            if miss:
+                print("PATTERN MISSING", name, miss[0][:60])
+                continue
+            for a, b in old[1]:
+                s = s.replace(a, b)
+            open(p, "w").write(s)
+        else:
+            if s.count(old) < 1:
+                print("PATTERN MISSING", name)
+                continue
+            open(p, "w").write(s.replace(old, new, 1))
         d = subprocess.check_output(["git", "-C", REPO, "diff"], text=True)
         open(os.path.join(OUT, name + ".patch"), "w").write(d)
         subprocess.check_call(["git", "-C", REPO, "checkout", "--", "."])
